@@ -48,10 +48,10 @@ fn known_step_c02(before: &Url, op: &verif_harness::urlops::Op) -> bool {
     outside || matches!(op, Op::SetIpHost(ip) if known_f_c02_9(before, ip)) || known_f_c07_8(before, op)
 }
 
-/// the class F-C07-8 seen from C02 (coq/Properties/C02.v C02_F_C07_8_witness, C02_statement_refuted): quirks::set_host
-/// on a non-special URL that has a password and no user name - an empty host part is accepted (the code looks at the
-/// user name and the port only) and gives scheme://:pw@/..., which does not re-parse.  Over-approximation: every quirks
-/// host call on such a URL.
+/// mirror of Known_F_C02_10 (coq/Proofs/C02_Stmt4.v; the class F-C07-8 seen from C02 - C02_F_C02_10_witness,
+/// C02_statement_refuted): quirks::set_host on a non-special URL that has a password and no user name - an empty host
+/// part is accepted (the code looks at the user name and the port only) and gives scheme://:pw@/..., which does not
+/// re-parse.  Over-approximation: every quirks host call on such a URL.
 fn known_f_c07_8(before: &Url, op: &verif_harness::urlops::Op) -> bool {
     use verif_harness::urlops::Op;
     matches!(op, Op::Quirk("host", _)) && !before.is_special() && before.username().is_empty() && before.password().is_some()
@@ -370,6 +370,15 @@ fn run_known(args: &Args) -> Report {
         r.starts_with("a://127.0.0.1/ host=Some(Ipv4(127.0.0.1)) reparse=a://127.0.0.1/ host=Some(Domain(\"127.0.0.1\")) in_class=true prop_c02=true"),
         r,
     ));
+    // F-C07-8 seen from C02 (Known_F_C02_10): the step is in the class, the result does not re-parse
+    let r = verif_harness::guarded(|| {
+        let mut u = Url::parse("a://:pw@h/p").unwrap();
+        let op = verif_harness::urlops::Op::Quirk("host", String::new());
+        let in_class = known_f_c07_8(&u, &op);
+        let res = url::quirks::set_host(&mut u, "");
+        format!("{:?} {} reparse={:?} in_class={} prop_c02={}", res, u, Url::parse(u.as_str()).map(|v| v.to_string()), in_class, prop_c02(&u).is_some())
+    });
+    rep.known.push(("F-C07-8".into(), r == "Ok(()) a://:pw@/p reparse=Err(EmptyHost) in_class=true prop_c02=true", r));
     // ===== F-C10-1 at URL level (task c09long) - begin =====
     // Url::parse accepts a host label of 1000 ideographs (U+4E00 + 20*i); the host of the result is xn-- + 2958 bytes,
     // inside Known_C10_long, which the idna crate rejects: the serialization does not parse (C02 violated on a plain
